@@ -73,10 +73,13 @@ def describe(r):
     return ("other", repr(v))
 
 
-def check(ctx):
+def precedence_tables(ctx, R1, only=None):
+    """decision tables of the three-level getters (certificate > endpoint > global > built-in default), evaluated for every presence
+    combination; shared with C06 for the two renewal-timing options"""
     prog = ctx.prog
-    R1 = ctx.rule("R1", "precedence certificate > endpoint > global > default for renew_delay, random_early_renew, file_name_format; certificate > global > default for the directory (decision tables)")
     for opt, (getter, parser, dflt_const) in CHAINS.items():
+        if only and opt not in only:
+            continue
         dflt = prog.const(dflt_const)
         dval = dflt.get("int", dflt.get("str"))
         # certificate level
@@ -127,6 +130,12 @@ def check(ctx):
                 exp = "%s = %r" % (dflt_const.rsplit("::", 1)[1], dval)
             ctx.require(R1, good, "%s:%s" % (gb.file, gb.line), "global.%s %s -> %s (got %s)" % (opt, "set" if present else "unset", exp, d),
                         ["config::GlobalOptions::" + getter, "set" if present else "unset"])
+
+
+def check(ctx):
+    prog = ctx.prog
+    R1 = ctx.rule("R1", "precedence certificate > endpoint > global > default for renew_delay, random_early_renew, file_name_format; certificate > global > default for the directory (decision tables)")
+    precedence_tables(ctx, R1)
     # directory
     db = prog.must_body(C + "::get_crt_dir")
     ddir = prog.const("acmed::DEFAULT_CERT_DIR").get("str")
